@@ -2,6 +2,7 @@
 import os
 import random
 import re
+import warnings
 
 from .. import model, runner
 from ..core import JobResult, job_seed
@@ -130,7 +131,13 @@ def rx_dialects_agree(pat):
 def rx_compile(pat):
     if not rx_dialects_agree(pat):
         raise re.error("the two regex dialects read this pattern differently")
-    return re.compile(pat)
+    with warnings.catch_warnings():
+        # "Possible nested set / set difference ...": Python itself flags the class syntax that other dialects read differently
+        warnings.simplefilter("error", FutureWarning)
+        try:
+            return re.compile(pat)
+        except FutureWarning as e:
+            raise re.error(str(e))
 
 
 def expected(op, pat, names, quirk=None):
